@@ -28,7 +28,7 @@ ASSUMPTIONS = [
     'in relocating files every instruction that an operand refers to carries a label (an unlabelled target is left as a literal by skool2asm - with a warning - but relocated by skool2bin: the documented reason to label it)',
     'instructions carrying @bytes are compared by length only (ASM text cannot express a variant encoding)',
     'a > or + directive is not attached to an instruction that an earlier | overwrite removes',
-    'O3 (#PEEK) is judged on files whose sub/fix directives are in-place, same-size replacements (see known finding F5 for the rest)',
+    'O3 (#PEEK): a mismatch in @rsub/@rfix mode on a file that inserts, overwrites or removes instructions is known finding F5; a mismatch confined to the bytes of an address-less replacement line of an applicable -begin/+else/+end block is known finding F49; everywhere else it is a violation',
 ]
 
 # (name, skool2asm options, skool2bin options, asm level, fix level)
@@ -338,7 +338,7 @@ def oracle(case, rec=None):
                     bad = [(a, mem.get(a), mem2.get(a)) for a in sorted(set(mem) | set(mem2)) if mem.get(a) != mem2.get(a)][:5]
                     raise Violation('metamorphic:%s:skool2asm' % meta, 'ASM image changes when %s directives are %s: %s' % (meta, 'renamed' if meta == 'label' else 'stripped', bad), case)
         # O3 #PEEK
-        if case['source'] == 'sna2skool' or case.get('inplace'):
+        if True:
             lo, hi = min(img), max(img)
             hi = min(hi, lo + 40)
             probe = '; PEEK #FOR(%d,%d,,1)(n,#PEEKn)' % (lo, hi)
@@ -349,23 +349,38 @@ def oracle(case, rec=None):
                 h = idx
                 while h > 0 and (lines[h - 1].startswith(';') or lines[h - 1].startswith('@')):
                     h -= 1
-                title = [l for l in lines[h:idx] if l.startswith(';')]
-                directives = [l for l in lines[h:idx] if l.startswith('@')]
-                new = (title[:1] or ['; T']) + [';', probe] + directives
+                hdr = lines[h:idx]
+                first_c = next((i for i, l in enumerate(hdr) if l.startswith(';')), None)
+                if first_c is None:
+                    first_c = len([l for l in hdr if l.split('=')[0] in ('@start', '@org', '@equ', '@set-crlf', '@writer')])
+                lead, hdr = hdr[:first_c], hdr[first_c:]
+                title = [l for l in hdr if l.startswith(';')]
+                directives = [l for l in hdr if l.startswith('@')]
+                new = lead + (title[:1] or ['; T']) + [';', probe] + directives
                 sk3 = '\n'.join(lines[:h] + new + lines[idx:])
                 r3 = cli.run('skool2asm', ['-q', '-w'] + list(aopt) + [s.write('p.skool', sk3)])
                 if r3.exc is not None:
                     raise Violation(crash_sig(r3.exc, 'skool2asm'), 'skool2asm raised %r with a #PEEK probe' % r3.exc, case)
-                m = re.search(r'^; PEEK ([\d,\s;]*)$', r3.out, re.M)
-                if r3.ok and m is None:
-                    m = re.search(r'; PEEK ((?:[\d,]|\n; )*)', r3.out)
+                m = re.search(r'^; PEEK((?: [\d,]+)?(?:\n; [\d,]+)*)$', r3.out, re.M)
+                if r3.ok and m is None and rec is not None:
+                    rec.note('O3:probe-not-found')
                 if r3.ok and m:
+                    if rec is not None:
+                        rec.note('O3:compared')
                     txt = m.group(1).replace('\n; ', '').replace(' ', '')
                     vals = [int(v) for v in txt.split(',') if v.strip().isdigit()]
                     want = [img.get(a, 0) for a in range(lo, hi + 1)]
                     if vals != want:
-                        k = next((i for i in range(min(len(vals), len(want))) if vals[i] != want[i]), min(len(vals), len(want)))
-                        raise Violation('peek-vs-bin:%s' % name, '#PEEK sees %s at %d, skool2bin image has %s (mode %s)' % (vals[k] if k < len(vals) else None, lo + k, want[k] if k < len(want) else None, name), case)
+                        bad = [i for i in range(max(len(vals), len(want))) if i >= len(vals) or i >= len(want) or vals[i] != want[i]]
+                        owned = _addressless_ranges(skool, asm_level, fix_level)
+                        outside = [i for i in bad if lo + i not in owned]
+                        k = (outside or bad)[0]
+                        sig = 'peek-vs-bin:%s' % name
+                        if case['source'] == 'hand' and not case.get('inplace') and asm_level >= 3:
+                            sig = 'peek-vs-bin:inserted-or-removed-instructions'
+                        elif not outside:
+                            sig = 'peek-vs-bin:addressless-replacement'
+                        raise Violation(sig, '#PEEK sees %s at %d, skool2bin image has %s (mode %s)' % (vals[k] if k < len(vals) else None, lo + k, want[k] if k < len(want) else None, name), case)
     if rec is not None:
         feats = case.get('feats', [])
         effective = any(f.startswith(('sub:', 'block:')) and _mode_applies(f.split(':')[1], asm_level, fix_level) for f in feats) or \
@@ -378,6 +393,17 @@ def oracle(case, rec=None):
 
 def _mode_applies(m, asm_level, fix_level):
     return {'isub': asm_level >= 1, 'ssub': asm_level >= 2, 'rsub': asm_level >= 3, 'ofix': fix_level >= 1, 'bfix': fix_level >= 2, 'rfix': fix_level >= 3}[m]
+
+
+def _addressless_ranges(skool, asm_level, fix_level):
+    """Addresses assembled (by skool2bin) from an address-less instruction line that replaces, in an applicable
+    '@M-begin ... @M+else ... @M+end' block, an instruction line that has an address."""
+    owned = set()
+    for m in re.finditer(r'^@(\w+)-begin\n.(\d{5}) .*\n@\1\+else\n {7}(\S.*)\n@\1\+end$', skool, re.M):
+        if _mode_applies(m.group(1), asm_level, fix_level):
+            a = int(m.group(2))
+            owned.update(range(a, a + _op_size(m.group(3))))
+    return owned
 
 
 def _bytes_directive_addrs(skool):
@@ -415,6 +441,15 @@ def replay(case):
 
 
 def known_class(sig, case):
+    # F5: the snapshot that #PEEK and the image macros read is built only from instruction lines that carry an address,
+    # at that address. (a) Instructions inserted (>, +), overwritten (|) or removed (!) by @rsub/@rfix directives do not
+    # move anything, so in @rsub/@rfix mode the snapshot differs from the skool2bin image of files that use such
+    # directives. (b) An address-less replacement line in a '@M-begin/@M+else/@M+end' block (the form the documentation
+    # gives for @bfix) contributes nothing, so in mode M the snapshot has zeros where skool2bin has the replacement.
+    if sig == 'peek-vs-bin:inserted-or-removed-instructions':
+        return 'F5'
+    if sig == 'peek-vs-bin:addressless-replacement':
+        return 'F49'
     return None
 
 
